@@ -1,0 +1,102 @@
+#ifndef CHESS_ENGINE_VERIF_HOOKS_H_
+#define CHESS_ENGINE_VERIF_HOOKS_H_
+
+// Verification hooks. Everything in this header is inert unless the build
+// defines CHESSPP_VERIF: the macros expand to nothing and no symbol exists.
+//
+//  VERIF_POINT(id, search, stop_flag, position, a, b)
+//      schedule / node-visit point; calls an atomically loaded callback
+//      (relaxed load: adds no synchronisation to the code under test).
+//  VERIF_BOUND(index, size, "site")
+//      states the intended bound of a fixed-size table right before the
+//      access; prints `VERIF-BOUND site=... index=... size=...` and aborts
+//      when it does not hold.
+//  VERIF_FRIENDS
+//      read-only friend accessors for state the public API cannot show.
+
+#ifdef CHESSPP_VERIF
+
+#include <atomic>
+#include <cstdio>
+#include <cstdlib>
+
+namespace engine
+{
+class Position;
+
+namespace verif
+{
+enum Point : int
+{
+    UCI_CMD_READ,
+    UCI_CMD_DONE,
+    THREAD_START,
+    GO_ENTRY,
+    GO_INIT_DONE,
+    GO_RESET_DONE,
+    ITER_BEGIN,
+    ITER_END,
+    NODE,
+    QNODE,
+    BEFORE_BESTMOVE,
+    AFTER_BESTMOVE,
+    STOP_ENTER,
+    STOP_DONE,
+    POINT_NUM
+};
+
+struct Ctx
+{
+    const void* search;
+    const volatile void* stop_flag;
+    const Position* position;
+    long a;
+    long b;
+};
+
+using Callback = void (*)(Point, const Ctx&);
+
+inline std::atomic<Callback> g_callback{nullptr};
+
+inline void point(Point p, const Ctx& ctx)
+{
+    Callback cb = g_callback.load(std::memory_order_relaxed);
+    if (cb) cb(p, ctx);
+}
+
+inline void bound(long index, long size, const char* site)
+{
+    if (index < 0 || index >= size)
+    {
+        std::fprintf(stderr, "VERIF-BOUND site=%s index=%ld size=%ld\n", site,
+                     index, size);
+        std::fflush(stderr);
+        std::abort();
+    }
+}
+
+struct PeekPosition;
+struct PeekBook;
+
+}  // namespace verif
+}  // namespace engine
+
+#define VERIF_POINT(id, search, stop_flag, position, a, b)  \
+    ::engine::verif::point(::engine::verif::id,             \
+                           ::engine::verif::Ctx{(search), (stop_flag), \
+                                                (position), (long)(a), (long)(b)})
+#define VERIF_BOUND(index, size, site) \
+    ::engine::verif::bound((long)(index), (long)(size), (site))
+#define VERIF_FRIENDS                        \
+    friend struct ::engine::verif::PeekPosition; \
+    friend struct ::engine::verif::PeekBook;
+
+#else
+
+#define VERIF_POINT(id, search, stop_flag, position, a, b) ((void)0)
+#define VERIF_BOUND(index, size, site) ((void)0)
+#define VERIF_FRIENDS
+
+#endif  // CHESSPP_VERIF
+
+#endif  // CHESS_ENGINE_VERIF_HOOKS_H_
